@@ -277,7 +277,7 @@ class ImageDepth:
             iter_range = add_progress_bar(iter_range,
                                           desc=desc)  # pragma: no cover
 
-        fluxes = []
+        self.fluxes = []  # reset the fluxes from any previous call
         flux_limits = []
         apertures = []
         for _ in iter_range:
